@@ -274,7 +274,7 @@ class C17:
         "template sources are static (reloads from changed sources are carved out by the statement and are C23's subject)",
         "interleaving is explored at await granularity (asyncio), not OS threads",
     ]
-    REQUIRED_REACH = ["reach.render_after_same_template", "reach.render_after_same_env", "reach.clock_advanced_between",
+    REQUIRED_REACH = ["reach.order_variation_compared", "reach.pristine_compared", "reach.render_after_same_template", "reach.render_after_same_env", "reach.clock_advanced_between",
                       "reach.twin_data", "reach.concurrent_same_template", "reach.aborted_render", "fault.cancel_landed",
                       "reach.tz_equal_instants", "reach.implicit_env", "reach.fp_checks", "fault.drop_failed"]
 
@@ -352,9 +352,9 @@ class C17:
                 op["cancel_after"] = round(rng.random() * 0.01, 5)
             return op
 
-        # every render costs one (system-wide serialised) reference fork: keep histories short, run many
-        clients = [{"id": c, "ops": [gen_op() for _ in range(rng.randint(2, 5))]} for c in range(rng.randint(1, 3))]
+        clients = [{"id": c, "ops": [gen_op() for _ in range(rng.randint(2, 9))]} for c in range(rng.randint(1, 4))]
         return {"envs": envs, "datas": datas, "clients": clients, "sched_seed": rng.randrange(1 << 30),
+                "pristine_p": 0.15, "pristine_max": 3,
                 "lat": {"max": 0.01, "zero_p": rng.choice([0.1, 0.4]), "stall_p": 0.0}}
 
     def _special(self, rng):
@@ -392,12 +392,102 @@ class C17:
 
     # -- execution ---------------------------------------------------------------
     def run(self, sc):
-        # every history runs in a fork of this worker, which itself never renders anything:
-        # module-level state accumulated by one run cannot leak into the next one
-        return fork.run_in_fork(self._run_here, sc)
+        # The worker itself never renders anything.  (A) the history runs in a fork of it, so
+        # module-level state accumulated by one run cannot leak into the next; (B) the same
+        # renders run again, one at a time and in REVERSED order, in a second fork - a render
+        # whose outcome depends on what ran before it differs between A and B; (C) a sample of
+        # the renders is also compared with the pristine fork (no history at all), which catches
+        # dependence that happens to be symmetric under reordering.
+        res = fork.run_in_fork(self._run_here, sc)
+        probes = res.pop("probes")
+        st = res["stats"]
+        if res["violations"] or not probes:
+            return res
+        viol = res["violations"]
+        var = fork.run_in_fork(self._run_variation, sc, probes)
+        bump(st, "variation_forks")
+        for p in probes:
+            want = tuple(var[p["uid"]])
+            got = tuple(p["got"])
+            bump(st, "reach.order_variation_compared")
+            if got != want:
+                kind = "output" if got[0] == want[0] == "ok" else "%s->%s" % (
+                    want[1] if want[0] == "err" else "ok", got[1] if got[0] == "err" else "ok")
+                viol.append({"oracle": "history-independence", "sig": "order:%s:%s" % (p["mode"], kind),
+                             "detail": {"op": p["op"], "in_history": _brief(got), "alone_in_reversed_order": _brief(want),
+                                        "clock_us": p["clock"], "position_in_history": p["pos"]}})
+                break
+        if viol:
+            return res
+        zy = fork.zygote()
+        f0 = zy.forks
+        rng = Rng(sc["sched_seed"], ("pristine-sample",))
+        chosen = [probes[-1]] + [p for p in probes[:-1] if rng.chance(sc.get("pristine_p", 0.15))]
+        for p in chosen[: sc.get("pristine_max", 3)]:
+            want = tuple(self._pristine(zy, sc, p, res))
+            got = tuple(p["got"])
+            bump(st, "reach.pristine_compared")
+            if got != want:
+                kind = "output" if got[0] == want[0] == "ok" else "%s->%s" % (
+                    want[1] if want[0] == "err" else "ok", got[1] if got[0] == "err" else "ok")
+                viol.append({"oracle": "history-independence", "sig": "history:%s:%s" % (p["mode"], kind),
+                             "detail": {"op": p["op"], "pristine": _brief(want), "in_history": _brief(got),
+                                        "clock_us": p["clock"], "position_in_history": p["pos"]}})
+                break
+        bump(st, "reference_forks", zy.forks - f0)
+        return res
+
+    def _pristine(self, zy, sc, p, res):
+        op = p["op"]
+        dspec = sc["datas"][op["data"]]
+        e = op["env"]
+        if op["op"] == "implicit":
+            src = sc["envs"][e]["mains"][op["main"]]
+            src = src if isinstance(src, str) else G.render_source(src)
+            probe = {"kind": "implicit", "source": src, "kwargs": op["kwargs"], "data": dspec, "clock": p["clock"]}
+            key = digest(("imp", src, op["kwargs"], dspec, p["clock"]))
+        else:
+            tgt = {k: op[k] for k in ("main", "name") if k in op}
+            probe = {"kind": "render", "env": sc["envs"][e], "op": tgt, "data": dspec, "clock": p["clock"],
+                     "mode": p["mode"]}
+            key = digest(("r", sc["envs"][e], tgt, dspec, p["clock"], p["mode"]))
+        res["states"].append(int(key[:12], 16))
+        return zy.ask(key, probe)
+
+    def _run_variation(self, sc, probes):
+        """The probes of a history, alone and in reversed order, in a fresh fork of the worker."""
+        warnings.simplefilter("ignore")
+        loop = SimLoop(Rng(0, ("var",)), step_cap=800000, lat_profile={"max": 0.0, "zero_p": 1.0, "stall_p": 0.0})
+        loop_ref = [loop]
+        worlds = [build_world(es, loop_ref) for es in sc["envs"]]
+        out = {}
+
+        async def root():
+            for p in reversed(probes):
+                op = p["op"]
+                CLOCK.set(p["clock"])
+                e = op["env"]
+                env, mains, srcs = worlds[e]
+                dspec = sc["datas"][op["data"]]
+                if op["op"] == "implicit":
+                    data = make_data(dspec, None)
+                    out[p["uid"]] = norm(outcome(lambda: liquid.Template(srcs[op["main"]], **op["kwargs"]).render(**data)))
+                elif p["mode"] == "sync":
+                    data = make_data(dspec, None)
+                    out[p["uid"]] = norm(outcome(lambda: get_target(env, mains, op).render(**data)))
+                else:
+                    data = make_data(dspec, loop)
+
+                    async def go():
+                        t = await get_target_async(env, mains, op)
+                        return await t.render_async(**data)
+                    out[p["uid"]] = norm(await outcome_async(go()))
+        loop.run_sim(root())
+        return out
 
     def _run_here(self, sc):
         res = new_result()
+        res["probes"] = []
         with warnings.catch_warnings():
             warnings.simplefilter("ignore")
             CLOCK.set(clock.EPOCH_US)
@@ -413,8 +503,7 @@ class C17:
     def _run_world(self, sc, res):
         st = res["stats"]
         viol = res["violations"]
-        zy = fork.zygote()
-        forks0 = zy.forks
+        probes = res["probes"]
         loop = SimLoop(Rng(sc["sched_seed"], ("sched",)), step_cap=400000, lat_profile=sc["lat"])
         loop_ref = [loop]
         worlds = [build_world(es, loop_ref) for es in sc["envs"]]
@@ -434,19 +523,6 @@ class C17:
                     return True
             return False
         sens = [sensitive(es) for es in sc["envs"]]
-
-        def reference(op, e, dspec, mode):
-            ck = CLOCK.us if sens[e] else 0
-            if op["op"] == "implicit":
-                probe = {"kind": "implicit", "source": worlds[e][2][op["main"]], "kwargs": op["kwargs"], "data": dspec,
-                         "clock": CLOCK.us}
-                key = digest(("imp", probe["source"], op["kwargs"], dspec, ck))
-            else:
-                tgt = {k: op[k] for k in ("main", "name") if k in op}
-                probe = {"kind": "render", "env": sc["envs"][e], "op": tgt, "data": dspec, "clock": CLOCK.us, "mode": mode}
-                key = digest(("r", sc["envs"][e], tgt, dspec, ck, mode))
-            res["states"].append(int(key[:12], 16))
-            return zy.ask(key, probe)
 
         def note_context(op, e, tkey):
             same_t = any(r[0] == e and r[1] == tkey for r in rendered)
@@ -536,13 +612,8 @@ class C17:
             if clock_at_invoke != CLOCK.us and sens[e]:
                 bump(st, "relaxed.clock_moved_during_render")   # another client advanced the clock mid-render
                 return
-            want = reference(op, e, dspec, mode)
-            if got != want:
-                kind = "output" if got[0] == want[0] == "ok" else "%s->%s" % (
-                    want[1] if want[0] == "err" else "ok", got[1] if got[0] == "err" else "ok")
-                add("history-independence", "history:%s:%s" % (mode, kind),
-                    {"op": op, "pristine": _brief(want), "in_history": _brief(got), "clock_us": CLOCK.us,
-                     "earlier_renders": len(rendered) - 1})
+            probes.append({"uid": op["uid"], "op": op, "mode": mode, "clock": clock_at_invoke, "got": got,
+                           "pos": len(probes)})
 
         async def client(c):
             me = "c%d" % c["id"]
@@ -567,12 +638,9 @@ class C17:
                     got = norm(outcome(lambda: liquid.Template(worlds[e][2][op["main"]], **op["kwargs"]).render(**data)))
                     if fingerprint(data) != fp0:
                         add("data-immutability", "data-mutated:implicit", {"op": op})
-                    want = reference(op, e, dspec, "sync")
                     history.append([op["uid"], "implicit", got[0]])
-                    if got != want:
-                        add("history-independence", "history:implicit:%s" % (
-                            "output" if got[0] == want[0] == "ok" else "outcome"),
-                            {"op": op, "pristine": _brief(want), "in_history": _brief(got)})
+                    probes.append({"uid": op["uid"], "op": op, "mode": "implicit", "clock": CLOCK.us, "got": got,
+                                   "pos": len(probes)})
                 else:
                     await do_render(me, op)
                 if viol:
@@ -589,7 +657,6 @@ class C17:
             add("liveness", "liveness:deadlock", {"log_tail": loop.log[-10:]})
         except SimStepCap:
             raise RuntimeError("HARNESS-TIMEOUT: SimLoop step cap")
-        bump(st, "reference_forks", zy.forks - forks0)
         bump(st, "suspensions", loop.suspensions)
         res["sim_time"] = loop.time()
         res["steps"] = loop.steps
